@@ -442,7 +442,7 @@ func validateNonEmptyWithAllowNil(v interface{}, _ string, allowNil bool) error 
 
 	val := reflect.ValueOf(v)
 	if val.Kind() == reflect.Array || val.Kind() == reflect.Slice {
-		if val.IsNil() {
+		if val.Kind() == reflect.Slice && val.IsNil() {
 			if allowNil {
 				return nil
 			}
